@@ -156,13 +156,44 @@ func (c *CheckCtx) cleanCases(limit int) error {
 		cases = append(cases, cc)
 	}
 	c.model("Gen_Clean.cfg", res, true, fmt.Sprintf("%d cases emitted", len(cases)))
+	// TLC's workers print in no fixed order: sort, so that a tier explores the same cases every run
+	sort.Slice(cases, func(i, j int) bool {
+		a, _ := json.Marshal(cases[i])
+		b, _ := json.Marshal(cases[j])
+		return string(a) < string(b)
+	})
 	if limit > 0 && len(cases) > limit {
-		step := len(cases) / limit
-		var th []*cleanCase
-		for i := int(c.Seed) % step; i < len(cases) && len(th) < limit; i += step {
-			th = append(th, cases[i])
+		// stratified: every case in which Clean both prunes and sorts a file that holds stale entries
+		// (the interplay of the two rewrites) is kept; the rest is thinned with a seed-dependent stride
+		var keep, rest []*cleanCase
+		for _, cc := range cases {
+			live := map[string]bool{}
+			for _, h := range cc.Live {
+				live[h] = true
+			}
+			surv := 0
+			for _, h := range cc.Arr {
+				if live[h] {
+					surv++
+				}
+			}
+			if cc.Delete && cc.Sort && surv >= 1 && surv < len(cc.Arr) {
+				keep = append(keep, cc)
+			} else {
+				rest = append(rest, cc)
+			}
 		}
-		cases = th
+		nkeep := len(keep)
+		room := limit - len(keep)
+		if room < limit/3 {
+			room = limit / 3
+		}
+		step := len(rest)/room + 1
+		for i := int(c.Seed) % step; i < len(rest); i += step {
+			keep = append(keep, rest[i])
+		}
+		c.note("%d of %d clean cases in this tier (all %d of the prune-and-sort stratum)", len(keep), len(cases), nkeep)
+		cases = keep
 	}
 	var scs []*Scenario
 	for i, cc := range cases {
